@@ -54,7 +54,7 @@ def csnap(I, o):
 def features(c):
     """what the history exercises (computed from the script alone)"""
     open_, f = {}, set()
-    for g in c["groups"]:
+    for g in (c.get("groups") or []):
         if len(g) > 1:
             f.add("concurrent_group")
         for s in g:
@@ -95,6 +95,7 @@ class C19(Prop):
     case_imports = ["Moc.Prom"]
     harness_bin = "prom"
     harness_sub = "c19"
+    build_flags = ("-race",)   # own binary (cmd/prom); a data race makes the harness exit 66
     sizes = {"quick": 1500, "thorough": 30000}
     gen_names = ("g_prom_", "prometheus.go", "GenProm")
     rule = ("histories of 1..8 sessions (4..40 groups of steps, 15% of the groups hold 2..5 steps on distinct sessions that are "
@@ -119,7 +120,7 @@ class C19(Prop):
     ]
 
     def to_coq(self, I, c):
-        groups = clist(c["groups"], lambda g: clist(g, lambda s: cstep(I, s), "pstep"), "(list pstep)")
+        groups = clist(c.get("groups") or [], lambda g: clist(g, lambda s: cstep(I, s), "pstep"), "(list pstep)")
         obs = clist(c.get("obs") or [], lambda o: csnap(I, o), "snap")
         inner = clist(c.get("inner") or [],
                       lambda v: cpair(cZ(v["s"]), clist(v.get("ms") or [], lambda m: cmsg(I, m), "pcmsg")),
@@ -131,26 +132,33 @@ class C19(Prop):
 
     def nontrivial_key(self, c):
         if len(features(c)) >= 3:
-            return json.dumps(c["groups"], sort_keys=True)
+            return json.dumps(c.get("groups"), sort_keys=True)
         return None
 
     def dedup_key(self, c):
         return json.dumps(sorted(features(c)))
 
     def summarize(self, c):
-        return {"groups": c["groups"][:12], "obs_last": (c.get("obs") or [None])[-1], "clean": c.get("clean")}
+        return {"groups": (c.get("groups") or [])[:12], "obs_last": (c.get("obs") or [None])[-1], "clean": c.get("clean")}
 
     def shrink(self, c):
-        groups = c["groups"]
+        groups = c.get("groups") or []
         base = {"groups": groups}
-        # drop whole groups (the harness re-normalises: steps of sessions whose start was dropped vanish)
-        for gs in drop_one(groups):
-            yield {"groups": gs}
+        # drop chunks of groups, large chunks first (the harness re-normalises: steps of sessions
+        # whose start was dropped vanish)
+        n = len(groups)
+        k = n // 2
+        while k >= 2:
+            for i in range(0, n, k):
+                yield {"groups": groups[:i] + groups[i + k:]}
+            k //= 2
         # drop all steps of one session
         sids = sorted({s["s"] for g in groups for s in g})
         if len(sids) > 1:
             for sid in sids:
                 yield {"groups": [[s for s in g if s["s"] != sid] for g in groups]}
+        for gs in drop_one(groups):
+            yield {"groups": gs}
         # drop one step of a group / split a group into singletons
         for i, g in enumerate(groups):
             if len(g) > 1:
@@ -170,10 +178,10 @@ class C19(Prop):
              "sessions": 0, "unclean": 0}
         feats = {}
         for c in cases:
-            d["groups"] += len(c["groups"])
+            d["groups"] += len(c.get("groups") or [])
             d["unclean"] += 0 if c.get("clean") else 1
             d["sessions"] += len(c.get("inner") or [])
-            for g in c["groups"]:
+            for g in (c.get("groups") or []):
                 d["steps"] += len(g)
                 d["concurrent_groups"] += 1 if len(g) > 1 else 0
                 for s in g:
